@@ -124,4 +124,78 @@ def allAbbrevs : List (Codes × Key) :=
     ((dropPair .x k).toList ++ (dropPair .y k).toList ++ (dropBoth k).toList).map fun s => (s, k)).filter
       fun p => p.1 != [120, 61, 121] && p.1 != [121, 61, 120]
 
+/-! ### Decorated abbreviated spellings (round 10, E3)
+
+An abbreviated spelling keeps ONE letter of an adjacent pair `c ≤ c` of the key (the manual's
+"single `x`" / "single `y`"), or spells the identity `x=y≤x=y` as `x=y` / `y=x`. The kept tokens are
+decorated exactly as in a full formula spelling (`FormulaStyle`): arbitrary junk around and between
+the tokens, operands in either case with an optional index digit (the code erases digits like any
+other junk, so `x1<Y2` is `x<y`), operators canonical or `<=` / `==`. -/
+
+/-- Which abbreviation: the pair at letters 1-2, 2-3 or 3-4 written with a single letter, both outer
+pairs (`x<y`), or the identity written `x=y` / `y=x`. -/
+inductive Abbrev | p1 | p2 | p3 | both | identXY | identYX
+  deriving DecidableEq, Repr, Inhabited
+
+def allAbbrevKinds : List Abbrev := [.p1, .p2, .p3, .both, .identXY, .identYX]
+
+/-- The key the manual's `x=y` / `y=x` stand for. -/
+def identityKey : Key := ⟨.x, .y, .x, .y, .eq, .le, .eq⟩
+
+/-- Key `k` has the abbreviation `a`. (`both` on `x≤x=y≤y` / `y≤y=x≤x` would be written `x=y` / `y=x`,
+which the manual reserves for the identity: excluded, as in `allAbbrevs`.) -/
+def Abbrev.applies (a : Abbrev) (k : Key) : Bool :=
+  match a with
+  | .p1 => decide (k.l1 = k.l2) && decide (k.o1 = .le)
+  | .p2 => decide (k.l2 = k.l3) && decide (k.o2 = .le)
+  | .p3 => decide (k.l3 = k.l4) && decide (k.o3 = .le)
+  | .both => decide (k.l1 = k.l2) && decide (k.l3 = k.l4) && decide (k.o1 = .le) && decide (k.o3 = .le) &&
+      !decide (k.o2 = .eq)
+  | .identXY | .identYX => decide (k = identityKey)
+
+/-- One more `junk operator junk operand` group of a chain of comparisons. -/
+structure Link where
+  ja : Str
+  o : KOp
+  p : OpStyle
+  jb : Str
+  l : Letter
+  s : OperandStyle
+  deriving DecidableEq, Repr, Inhabited
+
+/-- The text of `operand (junk operator junk operand)*`. -/
+def renderChain (l : Letter) (s : OperandStyle) : List Link → Str
+  | [] => renderOperand l s
+  | k :: r => renderOperand l s ++ (k.ja ++ (renderOp k.o k.p ++ (k.jb ++ renderChain k.l k.s r)))
+
+/-- The tokens an abbreviation keeps, each with the decoration `st` gives it (the style fields of
+the dropped letter and operator are ignored). -/
+def abbrevChain (a : Abbrev) (k : Key) (st : FormulaStyle) : Letter × OperandStyle × List Link :=
+  match a with
+  | .p1 => (k.l1, st.s1, [⟨st.j1, k.o2, st.p2, st.j4, k.l3, st.s3⟩, ⟨st.j5, k.o3, st.p3, st.j6, k.l4, st.s4⟩])
+  | .p2 => (k.l1, st.s1, [⟨st.j1, k.o1, st.p1, st.j2, k.l2, st.s2⟩, ⟨st.j5, k.o3, st.p3, st.j6, k.l4, st.s4⟩])
+  | .p3 => (k.l1, st.s1, [⟨st.j1, k.o1, st.p1, st.j2, k.l2, st.s2⟩, ⟨st.j3, k.o2, st.p2, st.j4, k.l3, st.s3⟩])
+  | .both => (k.l1, st.s1, [⟨st.j1, k.o2, st.p2, st.j4, k.l3, st.s3⟩])
+  | .identXY => (k.l1, st.s1, [⟨st.j1, k.o1, st.p1, st.j2, k.l2, st.s2⟩])
+  | .identYX => (k.l2, st.s1, [⟨st.j1, k.o1, st.p1, st.j2, k.l1, st.s2⟩])
+
+/-- The text of the abbreviated spelling `a` of key `k` under the decoration `st`. -/
+def renderAbbrev (k : Key) (a : Abbrev) (st : FormulaStyle) : Str :=
+  let c := abbrevChain a k st
+  st.j0 ++ (renderChain c.1 c.2.1 c.2.2 ++ st.j7)
+
+/-- The bare abbreviated spelling (no decoration at all). -/
+def abbrevCodes (a : Abbrev) (k : Key) : Codes :=
+  match a with
+  | .p1 => [k.l1.code, k.o2.code, k.l3.code, k.o3.code, k.l4.code]
+  | .p2 => [k.l1.code, k.o1.code, k.l2.code, k.o3.code, k.l4.code]
+  | .p3 => [k.l1.code, k.o1.code, k.l2.code, k.o2.code, k.l3.code]
+  | .both => [k.l1.code, k.o2.code, k.l3.code]
+  | .identXY => [k.l1.code, k.o1.code, k.l2.code]
+  | .identYX => [k.l2.code, k.o1.code, k.l1.code]
+
+/-- Every (abbreviation, key) pair: 58 single-letter forms + `x=y` + `y=x`. -/
+def abbrevPairs : List (Abbrev × Key) :=
+  allKeys.flatMap fun k => (allAbbrevKinds.filter fun a => a.applies k).map fun a => (a, k)
+
 end Paroxy.Spec.NP
